@@ -188,6 +188,14 @@ func script(f *fixtures, g, r int) []string {
 		must(err)
 		b2, _ := jwt.DecodeUserClaims(t2)
 		add("issued name=%s empty=%v", b2.Name, b2.HasEmptyPermissions())
+		// a fresh account writes a tier into the map its constructor handed out: that map is this account's alone
+		fa := jwt.NewAccountClaims(f.sharedAcct.Subject)
+		fa.Limits.JetStreamTieredLimits[fmt.Sprintf("R%d-%d", g, r)] = jwt.JetStreamLimits{MemoryStorage: int64(g + 1), Streams: int64(r + 1)}
+		ftok, err := fa.Encode(f.okp)
+		must(err)
+		fb, err := jwt.DecodeAccountClaims(ftok)
+		must(err)
+		add("fresh acct tiers=%d decoded tiers=%d", len(fa.Limits.JetStreamTieredLimits), len(fb.Limits.JetStreamTieredLimits))
 	case 5: // user claims with a time zone, time ranges and source networks nobody has used before in this process:
 		// lazily initialised or memoised shared state (zone tables, caches) is touched for the first time concurrently
 		u := jwt.NewUserClaims(f.sharedUser.Subject)
